@@ -57,11 +57,11 @@ impl Encoder<Message> for SyncCodec {
             len
         );
 
+        // `dst` may already hold frames that have not been flushed yet: append after them.
+        let start = dst.len();
         dst.put_u32(u32::try_from(len).expect("already checked"));
-        if dst.len() < 4 + len {
-            dst.resize(4 + len, 0u8);
-        }
-        postcard::to_slice(&item, &mut dst[4..])?;
+        dst.resize(start + 4 + len, 0u8);
+        postcard::to_slice(&item, &mut dst[start + 4..])?;
 
         Ok(())
     }
